@@ -244,7 +244,7 @@ def lifeInv (d : Life) : Prop :=
   else d.runs = d.aborts ∨ (d.snapshot = false ∧ d.records = false ∧ d.runs = d.aborts + 1)
 
 theorem lifeInv_step (d : Life) (a : LifeAct) (h : lifeInv d) : lifeInv (lifeStep d a) := by
-  obtain ⟨sn, rc, jb, rn, an, ab⟩ := d
+  obtain ⟨sn, rc, jb, rn, an, ab, em⟩ := d
   unfold lifeInv at h ⊢
   cases a <;> cases sn <;> cases rc <;> cases jb <;> simp_all [lifeStep] <;> omega
 
@@ -276,19 +276,54 @@ theorem C33_life_holds : C33_life := by
 def C33_announce_full : Prop :=
   ∀ (snapshot : Bool) (l : List LifeAct), (lifeRun (Life.init snapshot) l).announced = (lifeRun (Life.init snapshot) l).runs
 
-/-- finding C33-F1: on the crash-recovery path the event is published before the in-flight check, so a
-    duplicate NodeLeft announces a relocation that is not started -/
-theorem C33_announce_refuted : ¬ C33_announce_full := by
+/-- still not true at full strength, BY DESIGN: without a snapshot and without a job the crash path
+    announces the derived set even when it is empty (a late NodeLeft after the relocation completed).
+    This is the only missing part; the defect C33-F1 (announcement while a relocation is in flight) is
+    gone since 51adf01. -/
+theorem C33_announce_empty_set_witness : ¬ C33_announce_full := by
   intro h
-  have := h false [.nodeLeft, .nodeLeft]
+  have := h false [.nodeLeft, .runOK, .nodeLeft]
   revert this
   decide
 
-/-- what does hold: a NodeLeft handled on the snapshot path announces exactly what it starts -/
-theorem C33_announce_partial (d : Life) (hs : d.snapshot = true) :
-    (lifeStep d .nodeLeft).announced - d.announced = (lifeStep d .nodeLeft).runs - d.runs := by
-  simp only [lifeStep, hs, ↓reduceIte]
-  split <;> simp
+theorem announce_step (d : Life) (a : LifeAct) (h : d.announced = d.runs + d.empty) :
+    (lifeStep d a).announced = (lifeStep d a).runs + (lifeStep d a).empty := by
+  obtain ⟨sn, rc, jb, rn, an, ab, em⟩ := d
+  cases a <;> cases sn <;> cases rc <;> cases jb <;> simp_all [lifeStep] <;> omega
+
+/-- the repaired code, for EVERY sequence of NodeLefts (either path, any moment), completed and
+    aborted runs:
+    * a NodeLeft handled while a relocation of the departure is in flight changes nothing - no event,
+      no dispatch - on BOTH paths (C33-F1 fixed);
+    * every RelocationStarted event is either the announcement of a relocation that is started, or a
+      crash-path announcement of an empty derived set: `announced = runs + empty`;
+    * an empty-set announcement only happens with no snapshot, no registry record and no job. -/
+def C33_announce_partial : Prop :=
+  (∀ d : Life, d.job = true → lifeStep d .nodeLeft = d)
+  ∧ (∀ (snapshot : Bool) (l : List LifeAct),
+      let d := lifeRun (Life.init snapshot) l
+      d.announced = d.runs + d.empty)
+  ∧ (∀ d : Life, (lifeStep d .nodeLeft).empty ≠ d.empty → d.snapshot = false ∧ d.records = false ∧ d.job = false)
+
+theorem C33_announce_partial_holds : C33_announce_partial := by
+  refine ⟨?_, ?_, ?_⟩
+  · intro d hj
+    obtain ⟨sn, rc, jb, rn, an, ab, em⟩ := d
+    cases sn <;> simp_all [lifeStep]
+  · intro snapshot l
+    have : ∀ (l : List LifeAct) (d : Life), d.announced = d.runs + d.empty →
+        (lifeRun d l).announced = (lifeRun d l).runs + (lifeRun d l).empty := by
+      intro l
+      induction l with
+      | nil => intro d h; exact h
+      | cons a l ih => intro d h; exact ih _ (announce_step d a h)
+    exact this l _ (by simp [Life.init])
+  · intro d hne
+    obtain ⟨sn, rc, jb, rn, an, ab, em⟩ := d
+    cases sn <;> cases rc <;> cases jb <;> simp_all [lifeStep]
+
+-- regression for C33-F1: two duplicate NodeLefts on the crash path while the relocation is in flight
+example : (lifeRun (Life.init false) [.nodeLeft, .nodeLeft, .nodeLeft]).announced = 1 := by decide
 
 example : (lifeRun (Life.init true) [.nodeLeft, .nodeLeft, .runAbort, .nodeLeft, .nodeLeft, .runOK, .nodeLeft]).runs = 2 := by decide
 
